@@ -388,6 +388,9 @@ def build(spec, rng, q0=None, u0=None):
     R.A_rho0 = float(inertias.A_rho0)
     R.B_I_rho0 = np.array(inertias.B_I_rho0, dtype=float)
 
+    if q0 is None and spec.get("q0") == "perturbed":
+        # initial configuration different from the stress-free reference (a pre-deformed start): q0 is an argument of its own
+        q0 = R.Q + 0.05 * rng.normal(size=R.Q.shape) * np.maximum(1.0, np.abs(R.Q)) * 0.3
     q0 = R.Q.copy() if q0 is None else np.asarray(q0, dtype=float)
     if spec.get("assemble", "plain") == "full" and qn == "nodewise":
         raise ValueError("assemble='full' normalises q0, which is a different configuration than a node-wise scaled Q")
